@@ -93,13 +93,13 @@ func (c *checker) live(t *testing.T) {
 		client, err := rueidis.NewClient(rueidis.ClientOption{
 			InitAddress:           []string{"127.0.0.1:6379"},
 			DialCtxFn:             srv.dial,
-			Dialer:                net.Dialer{KeepAlive: -1}, // no background PINGs
+			Dialer:                net.Dialer{KeepAlive: -1, Timeout: 2 * time.Hour}, // no background PINGs; no wall-clock limit that load could trip
 			DisableCache:          true,
 			ForceSingleClient:     true,
 			DisableRetry:          true,
 			AlwaysPipelining:      mode == "always-pipelining",
 			DisableAutoPipelining: mode == "no-auto-pipelining",
-			ConnWriteTimeout:      60 * time.Second,
+			ConnWriteTimeout:      2 * time.Hour,
 		})
 		if err != nil {
 			run.Inconclusive("live client could not be created: " + err.Error())
